@@ -2,6 +2,7 @@ package netconf
 
 import (
 	"bytes"
+	"regexp"
 	"strconv"
 	"time"
 )
@@ -10,6 +11,8 @@ const (
 	idOrSubMatchLen = 2
 	endRPCSplitLen  = 2
 )
+
+var v1Dot1ChunkHeader = regexp.MustCompile(`\n#\d+\n`) //nolint:gochecknoglobals
 
 func getID(match [][]byte) int {
 	if len(match) != idOrSubMatchLen {
@@ -65,6 +68,13 @@ func (d *Driver) read() {
 				var subID int
 
 				messageID = getID(patterns.messageID.FindSubmatch(b))
+				if messageID == 0 && d.SelectedVersion == V1Dot1 {
+					// a chunk boundary may legally fall inside the message-id attribute, look
+					// again with the chunk headers removed
+					messageID = getID(
+						patterns.messageID.FindSubmatch(v1Dot1ChunkHeader.ReplaceAll(b, nil)),
+					)
+				}
 
 				if bytes.Contains(b, []byte("</subscription-id>")) {
 					subID = getID(patterns.subscriptionID.FindSubmatch(b))
